@@ -148,11 +148,13 @@ Step ==
           ELSE st' = [st EXCEPT !.est = e.obs.est] /\ UNCHANGED <<ok, cfg>>
      ELSE IF e.ev = "RunEnd"
      THEN /\ UNCHANGED <<cfg, st>>
+          \* (a run that misses its bound leaves the book-keeping intact: report it and judge the rest of the sequence too)
+          /\ UNCHANGED ok
           /\ IF e.mode = "droprun" /\ e.est > cfg.floor
-             THEN ok' = FALSE /\ Rej(e, "loss", "a sustained run of drops did not bring the estimate to the floor within the bound", [floor |-> cfg.floor, bound |-> e.bound])
+             THEN Rej(e, "loss", "a sustained run of drops did not bring the estimate to the floor within the bound", [floor |-> cfg.floor, bound |-> e.bound])
              ELSE IF e.mode = "healthy" /\ e.target >= 0 /\ e.est < e.target
-             THEN ok' = FALSE /\ Rej(e, "demand", "a sustained healthy saturated run did not recover the estimate within the bound", [target |-> e.target, bound |-> e.bound])
-             ELSE UNCHANGED ok
+             THEN Rej(e, "demand", "a sustained healthy saturated run did not recover the estimate within the bound", [target |-> e.target, bound |-> e.bound])
+             ELSE TRUE
      ELSE \* Sample
        LET r == Check(cfg, st, e.in, e.obs)
            s2 == After(cfg, st, e.in, e.obs)
